@@ -76,6 +76,10 @@ class VLoop(asyncio.BaseEventLoop):
             return None
         return self._scheduled[0]._when
 
+    def due_count(self, t):
+        """Number of live timers that fall due at or before t."""
+        return len([h for h in self._scheduled if not h._cancelled and h._when <= t])
+
     def fire_due(self):
         """Move every timer due at the current instant to the ready queue,
         in the heap order the stock loop uses."""
